@@ -2,7 +2,8 @@
 //! real code: real generator → real parser → real `validate`; `update`: line-level preservation
 //! of everything outside scrut blocks, block count/order, idempotence, same commands.
 //! The Lean model (`Model/Generate.lean`) is compared on the text that `generate_testcase`
-//! produces for the `create` path.
+//! produces for the `create` path (op `gen`) and, for tests with expectations and the real diff, for
+//! the `update` path (op `genupd`, streams `update-generate-testcase-*`).
 use crate::common::*;
 use scrut::config::TestCaseConfig;
 use scrut::escaping::Escaper;
@@ -468,6 +469,242 @@ fn update_witness(prop: &str, name: &str, doc: &str, outputs: Vec<(Vec<u8>, i32)
     CaseRec { op: "noop".to_string(), impl_out: "ok".to_string(), oracle_fail: keep(prop, fails), nontrivial: true, tags: vec![format!("update:witness={name}")] }
 }
 
+// ------------------------------------------------------------------------------------------------
+// C09, `update`: correspondence of `Outcome::generate_testcase` for a test WITH expectations with
+// the Lean model `Gen.generateTestcaseUpd` (op `genupd`): the real diff is sent, the texts are compared
+// ------------------------------------------------------------------------------------------------
+
+/// `diff.lines` in the encoding of the `genupd` op; `Err` if a line carried by the diff is not the line
+/// of that index of the output (the encoding would lose it)
+fn upd_encode_diff(d: &scrut::diff::Diff, lines: &[&[u8]]) -> Result<String, String> {
+    use scrut::diff::DiffLine;
+    let idx = |ls: &Vec<(usize, Vec<u8>)>| -> Result<String, String> {
+        for (i, bytes) in ls {
+            if lines.get(*i).map_or(true, |l| *l != bytes.as_slice()) {
+                return Err(format!("diff line {i} holds {:?}", String::from_utf8_lossy(bytes)));
+            }
+        }
+        Ok(ls.iter().map(|(i, _)| i.to_string()).collect::<Vec<_>>().join("."))
+    };
+    if d.lines.is_empty() {
+        return Ok("_".into());
+    }
+    let mut v = vec![];
+    for l in &d.lines {
+        v.push(match l {
+            DiffLine::MatchedExpectation { index, lines, .. } => format!("m{}:{}", index, idx(lines)?),
+            DiffLine::UnmatchedExpectation { index, .. } => format!("u{index}"),
+            DiffLine::UnexpectedLines { lines } => format!("x{}", idx(lines)?),
+        });
+    }
+    Ok(v.join(","))
+}
+
+/// one outcome of a test with the expectations `exps` (texts as a document holds them), expected exit code
+/// `expected`, on the output `out` / `code`; `on_stderr`: the test validates stderr
+#[allow(clippy::too_many_arguments)]
+fn update_generate_case(prop: &str, esc: Escaper, cmd: &str, exps: &[&str], expected: Option<i32>, out: &[u8], code: i32, on_stderr: bool, tag: &str) -> Option<CaseRec> {
+    use scrut::testcase::TestCaseError;
+    let mk = ExpectationMaker::new(RuleRegistry::default());
+    let mut expectations = vec![];
+    for e in exps {
+        expectations.push(mk.parse(e).ok()?);
+    }
+    let quantified = expectations.iter().any(|e| e.optional || e.multiline);
+    let config = TestCaseConfig::default_markdown();
+    let config = if on_stderr { TestCaseConfig { output_stream: Some(scrut::config::OutputStreamControl::Stderr), ..config } } else { config };
+    let testcase = TestCase { title: "".into(), shell_expression: cmd.into(), expectations, exit_code: expected, line_number: 0, config };
+    let output = if on_stderr {
+        Output { stdout: b"noise on stdout\n".to_vec().into(), stderr: out.to_vec().into(), exit_code: ExitStatus::Code(code) }
+    } else {
+        Output { stdout: out.to_vec().into(), stderr: vec![].into(), exit_code: ExitStatus::Code(code) }
+    };
+    let result = testcase.validate(&output);
+    let outcome = Outcome { location: None, output: output.clone(), testcase, escaping: esc.clone(), format: ParserType::Markdown, result };
+    let mut fails: Vec<(String, String)> = vec![];
+    let lines: Vec<&[u8]> = out.split_inclusive(|b| *b == b'\n').collect();
+    // the open finding is about quantified expectations that the diff reports as matched (they are written back)
+    let retained_quantified = match &outcome.result {
+        Err(TestCaseError::MalformedOutput(d)) => d.lines.iter().any(|l| matches!(l, scrut::diff::DiffLine::MatchedExpectation { expectation, .. } if expectation.optional || expectation.multiline)),
+        _ => false,
+    };
+    let (kind, diff, shape) = match &outcome.result {
+        Ok(()) => ("ok".to_string(), "_".to_string(), "ok".to_string()),
+        Err(TestCaseError::MalformedOutput(d)) => {
+            let enc = match upd_encode_diff(d, &lines) {
+                Ok(e) => e,
+                Err(e) => {
+                    fails.push(("C09:diff-lines-not-of-output".into(), e));
+                    "_".into()
+                }
+            };
+            let count = |c: char| enc.split(',').filter(|x| x.starts_with(c)).count().min(3);
+            ("mal".to_string(), enc.clone(), format!("mal:m{}u{}x{}", count('m'), count('u'), count('x')))
+        }
+        Err(TestCaseError::InvalidExitCode { actual, .. }) => (format!("inv:{actual}"), "_".to_string(), if *actual == 0 { "inv:zero".into() } else { "inv:nonzero".into() }),
+        Err(_) => return None,
+    };
+    let text = c10_generated_text(&outcome);
+    let impl_out = match &text {
+        Some(t) => hex(t.as_bytes()),
+        None if cmd.is_empty() => "crash".to_string(),
+        None => "error".to_string(),
+    };
+    // direct oracle (the property): the document written for this outcome reads back as one test with the same
+    // command that passes on the output it was written from
+    let mut verdict = "none";
+    if text.is_some() {
+        if let Ok(Ok(doc)) = guarded(|| MarkdownTestCaseGenerator::default().generate_testcases(&[&outcome])) {
+            let cls = lines.iter().enumerate().find_map(|(i, l)| line_class(l, i == 0, false));
+            let class_of = |generic: &str| -> String {
+                if retained_quantified {
+                    "C09:update-retained-quantified-expectations".to_string()
+                } else {
+                    match cls {
+                        Some(c) => format!("C09:{c}"),
+                        None => format!("C09:{generic}"),
+                    }
+                }
+            };
+            match parse(ParserType::Markdown, &doc) {
+                Err(e) => {
+                    verdict = "parse-error";
+                    fails.push((class_of("updated-does-not-parse"), format!("written {:?} -> {e}", doc.chars().take(200).collect::<String>())));
+                }
+                Ok(tcs) if tcs.len() != 1 => {
+                    verdict = "test-count";
+                    fails.push((class_of("updated-test-count"), format!("written document holds {} tests: {:?}", tcs.len(), doc.chars().take(200).collect::<String>())));
+                }
+                Ok(tcs) => {
+                    if tcs[0].shell_expression != cmd {
+                        fails.push((class_of("command-changed"), format!("command {:?} reads back as {:?}", cmd, tcs[0].shell_expression)));
+                    }
+                    match tcs[0].validate(&output) {
+                        Ok(()) => verdict = "pass",
+                        Err(e) => {
+                            verdict = "fail";
+                            fails.push((class_of("updated-test-fails"), format!("expectations {:?} on {:?} (exit code {code}, expected {expected:?}) are written as {:?}, which fails on that output: {}", exps, String::from_utf8_lossy(out), doc.chars().take(200).collect::<String>(), format!("{e:?}").chars().take(120).collect::<String>())));
+                        }
+                    }
+                }
+            }
+        }
+    }
+    let mut others: Vec<u32> = vec![];
+    for l in &lines {
+        if let Ok(s) = std::str::from_utf8(l) {
+            others.extend(s.chars().filter(|c| unicode_other(*c)).map(|c| c as u32));
+        }
+    }
+    others.sort();
+    others.dedup();
+    let others = if others.is_empty() { "-".to_string() } else { others.iter().map(|c| format!("{c:x}")).collect::<Vec<_>>().join(",") };
+    let origs = if outcome.testcase.expectations.is_empty() {
+        "_".to_string()
+    } else {
+        outcome.testcase.expectations.iter().map(|e| hex(e.original_string().as_bytes())).collect::<Vec<_>>().join(",")
+    };
+    Some(CaseRec {
+        op: format!("genupd {} {} {} {} {} {} {} {}", esc_name(&esc), others, hex(cmd.as_bytes()), origs, kind, diff, hex(out), code),
+        impl_out,
+        oracle_fail: keep(prop, fails),
+        nontrivial: !exps.is_empty() && !lines.is_empty(),
+        tags: vec![tag.to_string(), format!("upd-gen:result={shape}"), format!("upd-gen:expectations={}", exps.len().min(4)), format!("upd-gen:quantified={quantified}"), format!("upd-gen:verdict={verdict}")],
+    })
+}
+
+/// expectations of every quantifier and of several kinds, chosen to (mis)match the lines of `UPD_OUT`
+const UPD_EXP: [&str; 6] = ["foo", "bar", "ba* (glob)", "foo (?)", "b* (glob+)", "f.* (regex*)"];
+/// output lines: matched by one / several / none of `UPD_EXP`; two that look like test syntax
+const UPD_OUT: [&[u8]; 5] = [b"foo", b"bar", b"baz", b"[1]", b"$ x\x01"];
+const UPD_EXP_MORE: [&str; 14] = ["foo", "bar", "baz", "ba* (glob)", "foo (?)", "b* (glob+)", "f.* (regex*)", "foo (no-eol)", "a\\tb (escaped)", "[1] (equal)", "* (glob*)", "x\\x01 (escaped)", "foo (glob) (equal)", "  "];
+
+fn update_generate_run(ctx: &Ctx, prop: &str) {
+    let seed = ctx.seed;
+    let (ne, no) = (UPD_EXP.len() as u64, UPD_OUT.len() as u64);
+    let max_e: u32 = if ctx.thorough { 3 } else { 2 };
+    let max_o: u32 = if ctx.thorough { 4 } else { 3 };
+    // (number of expectations, number of lines) → offset
+    let mut offs = vec![];
+    let mut total = 0u64;
+    for le in 0..=max_e {
+        for lo in 0..=max_o {
+            offs.push((le, lo, total));
+            total += ne.pow(le) * no.pow(lo) * 2;
+        }
+    }
+    let build = |le: u32, lo: u32, mut r: u64| -> (Vec<&'static str>, Vec<u8>, u64) {
+        let final_nl = r % 2 == 0;
+        r /= 2;
+        let mut h = r;
+        let mut exps = vec![];
+        for _ in 0..le {
+            exps.push(UPD_EXP[(r % ne) as usize]);
+            r /= ne;
+        }
+        let mut out = vec![];
+        for k in 0..lo {
+            out.extend_from_slice(UPD_OUT[(r % no) as usize]);
+            r /= no;
+            if k + 1 < lo || final_nl {
+                out.push(b'\n');
+            }
+        }
+        h = h.wrapping_mul(0x9E3779B97F4A7C15) >> 33;
+        (exps, out, h)
+    };
+    // the test passes its exit-code gate: `Ok` or `MalformedOutput` with the real diff
+    ctx.run_stream("update-generate-testcase-exhaustive", total, true, |idx| {
+        let (le, lo, base) = *offs.iter().rev().find(|(_, _, b)| *b <= idx).unwrap();
+        let (exps, out, h) = build(le, lo, idx - base);
+        let esc = if h % 2 == 0 { Escaper::Unicode } else { Escaper::Ascii };
+        let (expected, code) = if (h / 2) % 3 == 0 { (Some(3), 3) } else { (None, 0) };
+        update_generate_case(prop, esc, "the command", &exps, expected, &out, code, false, "update-generate-exhaustive")
+    });
+    // the exit-code gate fails: every line is regenerated whatever the expectations are
+    let mut offs2 = vec![];
+    let mut total2 = 0u64;
+    for le in 0..=1u32 {
+        for lo in 0..=max_o.min(2) {
+            offs2.push((le, lo, total2));
+            total2 += ne.pow(le) * no.pow(lo) * 2;
+        }
+    }
+    ctx.run_stream("update-generate-testcase-exit-code-exhaustive", total2 * 2, true, |idx| {
+        let (expected, code) = if idx % 2 == 0 { (None, 1) } else { (Some(2), 0) };
+        let idx = idx / 2;
+        let (le, lo, base) = *offs2.iter().rev().find(|(_, _, b)| *b <= idx).unwrap();
+        let (exps, out, h) = build(le, lo, idx - base);
+        let esc = if h % 2 == 0 { Escaper::Unicode } else { Escaper::Ascii };
+        update_generate_case(prop, esc, "the command", &exps, expected, &out, code, false, "update-generate-exit-code")
+    });
+    ctx.run_stream("update-generate-testcase-random", if ctx.thorough { 100_000 } else { 3_000 }, false, |idx| {
+        let mut rng = Rng::fork(seed, 54, idx);
+        let ne = rng.range(0, 5);
+        let exps: Vec<&str> = (0..ne).map(|_| *rng.pick(&UPD_EXP_MORE)).collect();
+        let nl = rng.range(0, 6);
+        let mut out: Vec<u8> = vec![];
+        for k in 0..nl {
+            match rng.below(8) {
+                0 => out.extend_from_slice(*rng.pick(&LINE_ALPHABET)),
+                1 => {
+                    let len = rng.range(0, 8);
+                    out.extend((0..len).map(|_| match rng.below(5) { 0 => b'\\', 1 => b' ', 2 => rng.below(32) as u8, _ => rng.below(256) as u8 }).filter(|b| *b != b'\n'));
+                }
+                2 => out.extend_from_slice(b"a\tb"),
+                _ => out.extend_from_slice(*rng.pick(&UPD_OUT)),
+            }
+            if k + 1 < nl || rng.chance(4, 5) {
+                out.push(b'\n');
+            }
+        }
+        let esc = if rng.chance(1, 2) { Escaper::Unicode } else { Escaper::Ascii };
+        let cmd = *rng.pick(&["the command", "the command", "multi\nline cmd", "caf\u{e9} 'a  b'", ""]);
+        let (expected, code) = *rng.pick(&[(None, 0), (None, 0), (None, 0), (Some(3), 3), (None, 2), (Some(2), 0), (Some(1), 255)]);
+        update_generate_case(prop, esc, cmd, &exps, expected, &out, code, rng.chance(1, 6), "update-generate-random")
+    });
+}
+
 /// lines of a Markdown document that are outside scrut blocks (foreign blocks count as outside)
 fn outside_lines(doc: &str) -> Vec<String> {
     let mut v = vec![];
@@ -596,6 +833,7 @@ pub fn run(ctx: &Ctx, prop: &str) {
             vec![(b"a1\na2\nb2\n".to_vec(), 0)],
         ))
     });
+    update_generate_run(ctx, prop);
     let _ = CramUpdateGenerator::default; // the Cram update generator regenerates the whole document; covered by create
 }
 
@@ -611,6 +849,29 @@ pub fn replay(prop: &str, op: &str) -> bool {
                 println!("oracle-failure {cl}: {d}");
             }
             c.oracle_fail.is_empty()
+        }
+        Some(&"genupd") if parts.len() == 9 => {
+            // the op holds everything but the expected exit code, which only decides the branch: rebuilt from the result kind
+            let esc = if parts[1] == "a" { Escaper::Ascii } else { Escaper::Unicode };
+            let cmd = String::from_utf8_lossy(&unhex(parts[3])).to_string();
+            let origs: Vec<String> = if parts[4] == "_" { vec![] } else { parts[4].split(',').map(|h| String::from_utf8_lossy(&unhex(h)).to_string()).collect() };
+            let exps: Vec<&str> = origs.iter().map(|s| s.as_str()).collect();
+            let code: i32 = parts[8].parse().unwrap_or(0);
+            let expected = if parts[5].starts_with("inv") { Some(if code == 7 { 8 } else { 7 }) } else if code == 0 { None } else { Some(code) };
+            match update_generate_case(prop, esc, &cmd, &exps, expected, &unhex(parts[7]), code, false, "replay") {
+                None => {
+                    println!("an expectation does not parse: {:?}", exps);
+                    false
+                }
+                Some(c) => {
+                    println!("expectations: {:?}\noutput: {:?}\nop rebuilt: {}", exps, String::from_utf8_lossy(&unhex(parts[7])), c.op);
+                    println!("generated: {:?}", if c.impl_out.chars().all(|x| x.is_ascii_hexdigit()) { String::from_utf8_lossy(&unhex(&c.impl_out)).to_string() } else { c.impl_out.clone() });
+                    for (cl, d) in &c.oracle_fail {
+                        println!("oracle-failure {cl}: {d}");
+                    }
+                    c.oracle_fail.is_empty()
+                }
+            }
         }
         Some(&"upd") if prop == "C10" && parts.len() == 3 => c10_replay(parts[1], parts[2]),
         _ => {
